@@ -4,7 +4,7 @@ d, prop, needs, detected = sys.argv[1:5]
 conf = open('/verif/seeded/%s/confirmation.txt' % d).read().strip().splitlines()
 m = {"property": prop, "breaks": open('/verif/seeded/%s/agent_meta.txt' % d).read()[:1500] if True else "",
      "needs_to_manifest": needs,
-     "confirmed_by_me": conf + ["root package suite with change: PASS (run by the authoring sub-agent, ~323 s)"],
+     "confirmed_by_me": conf + ["root package suite with change: PASS (run by the authoring sub-agent; failures it met were the known flaky TestPersist_Basic/LoadingBasic, reproduced on the unchanged tree)"],
      "what_i_ran": ["git apply patch.diff in scratch worktree /tmp/seed_*", "go build ./...", "go test -count=1 -vet=off ./internal/...",
                     "demo test with and without the change", "git -C /repo apply patch.diff && ./check %s && git -C /repo checkout -- ." % prop],
      "check_result": detected}
